@@ -14,10 +14,13 @@ CONSTANTS TraceFile
 
 Trace == ndJsonDeserialize(TraceFile)
 
-VARIABLES l, lost
-vars == <<dvars, l, lost>>
+VARIABLES l, lost, mech
+(* mech: the recorded walk has followed the mechanism of Dirs.tla so far. When the code creates or offers        *)
+(* directories differently (a refactoring may), that is DRIFT: it is printed and the mechanism is no longer     *)
+(* compared for this execution, while what C17 promises -- layout, bound, no entry elsewhere -- still is.       *)
+vars == <<dvars, l, lost, mech>>
 
-Init == DInit /\ l = 1 /\ lost = FALSE
+Init == DInit /\ l = 1 /\ lost = FALSE /\ mech = TRUE
 
 RECURSIVE RemoveAll(_, _, _)
 (* apply the removals one by one: returns <<ok, cnt, active>> *)
@@ -27,43 +30,56 @@ RemoveAll(rem, c, act) ==
        IN IF d \notin DOMAIN c \/ c[d] <= 0 THEN <<FALSE, c, act>>
           ELSE RemoveAll(Tail(rem), Fn(DOMAIN c, LAMBDA x : IF x = d THEN c[x] - 1 ELSE c[x]), act \cup {d})
 
-NewsOf(fs) == Fn({fs.newdirs[i][2] : i \in 1..Len(fs.newdirs)},
-                 LAMBDA n : (CHOOSE i \in 1..Len(fs.newdirs) : fs.newdirs[i][2] = n) )
 NewsRoot(fs) == Fn({fs.newdirs[i][2] : i \in 1..Len(fs.newdirs)},
                    LAMBDA n : fs.newdirs[CHOOSE i \in 1..Len(fs.newdirs) : fs.newdirs[i][2] = n][1])
 
 Reject(why) == PrintT(<<"REJECT", ToJson([l |-> l, why |-> why])>>) /\ FALSE
+Drift(why) == PrintT(<<"DRIFT", ToJson([l |-> l, why |-> why])>>)
 
-Reset == DInit /\ l' = l + 1 /\ lost' = FALSE
+(* the counts after a write into d with the new directories `news`, whatever the mechanism says about who is offered *)
+CountsAfter(d, news) ==
+  LET all == Dirs \cup DOMAIN news \cup {d}
+  IN Fn(all, LAMBDA x : (IF x \in Dirs THEN cnt[x] ELSE 0) + (IF x = d THEN 1 ELSE 0))
 
 Next ==
   /\ l <= Len(Trace)
   /\ LET e == Trace[l] IN
      IF e.op = "reset" THEN
         /\ active' = {} /\ rootOf' = Fn({}, LAMBDA x : 0) /\ cnt' = Fn({}, LAMBDA x : 0) /\ written' = FALSE
-        /\ steps' = steps /\ l' = l + 1 /\ lost' = FALSE
+        /\ steps' = steps /\ l' = l + 1 /\ lost' = FALSE /\ mech' = TRUE
      ELSE IF lost \/ "fs" \notin DOMAIN e \/ Len(e.fs.added) > 1 THEN
         \* the walk was not taken at quiescence (a stranded cleaner job): the rest of this trace is not judged
-        /\ UNCHANGED dvars /\ l' = l + 1 /\ lost' = TRUE
+        /\ UNCHANGED <<dvars, mech>> /\ l' = l + 1 /\ lost' = TRUE
      ELSE LET fs == e.fs IN
         IF Len(fs.stray) > 0 THEN Reject(<<"entries outside root/<uuid-dir>/<file>", fs.stray>>)
         ELSE IF Len(fs.added) = 1 THEN
            LET d == fs.added[1]
                news == NewsRoot(fs)
-           IN IF ~(\A r \in Roots : Cardinality({n \in DOMAIN news : news[n] = r}) = Expect(r))
-              THEN Reject(<<"directories created", fs.newdirs, "specification expects per root", [r \in Roots |-> Expect(r)]>>)
-              ELSE IF d \notin ((active \ Full(active, cnt)) \cup DOMAIN news)
-              THEN Reject(<<"file placed in directory", d, "which is not offered; offered", (active \ Full(active, cnt)) \cup DOMAIN news, "counts", cnt>>)
-              ELSE /\ WriteTo(d, news)
-                   /\ IF cnt'[d] > Limit THEN Reject(<<"directory", d, "holds", cnt'[d], "entries, limit", Limit>>) ELSE TRUE
-                   /\ IF Len(fs.removed) > 0 THEN Reject(<<"files removed in a writing step">>) ELSE TRUE
+               c2 == CountsAfter(d, news)
+               follows == /\ mech
+                          /\ \A r \in Roots : Cardinality({n \in DOMAIN news : news[n] = r}) = Expect(r)
+                          /\ d \in ((active \ Full(active, cnt)) \cup DOMAIN news)
+           IN IF d \notin (Dirs \cup DOMAIN news)
+              THEN Reject(<<"file placed in a directory that was never created", d>>)
+              ELSE IF c2[d] > Limit
+              THEN Reject(<<"directory", d, "holds", c2[d], "entries after this write, limit", Limit>>)
+              ELSE /\ IF follows
+                      THEN WriteTo(d, news) /\ mech' = TRUE
+                      ELSE /\ (mech => Drift(<<"directories created", fs.newdirs, "the mechanism expects per root", [r \in Roots |-> Expect(r)],
+                                                "file in", d, "offered", (active \ Full(active, cnt)) \cup DOMAIN news>>))
+                           /\ mech' = FALSE /\ cnt' = c2 /\ written' = TRUE
+                           /\ rootOf' = Fn(DOMAIN c2, LAMBDA x : IF x \in Dirs THEN rootOf[x] ELSE IF x \in DOMAIN news THEN news[x] ELSE 0)
+                           /\ active' = active
                    /\ steps' = steps /\ l' = l + 1 /\ lost' = FALSE
-        ELSE IF Len(fs.newdirs) > 0 THEN Reject(<<"directories created without a write", fs.newdirs>>)
         ELSE LET act0 == IF e.op = "reopen" THEN Dirs ELSE active
                  r == RemoveAll(fs.removed, cnt, act0)
              IN IF ~r[1] THEN Reject(<<"removed a file from a directory that holds none", fs.removed>>)
                 ELSE /\ cnt' = r[2] /\ active' = r[3]
-                     /\ UNCHANGED <<rootOf, written>>
+                     /\ (IF Len(fs.newdirs) > 0 /\ mech THEN Drift(<<"directories created without a write", fs.newdirs>>) ELSE TRUE)
+                     /\ mech' = (mech /\ Len(fs.newdirs) = 0)
+                     /\ rootOf' = IF Len(fs.newdirs) = 0 THEN rootOf
+                                   ELSE Fn(Dirs \cup DOMAIN NewsRoot(fs), LAMBDA x : IF x \in Dirs THEN rootOf[x] ELSE NewsRoot(fs)[x])
+                     /\ UNCHANGED written
                      /\ steps' = steps /\ l' = l + 1 /\ lost' = FALSE
 
 Spec == Init /\ [][Next]_vars
